@@ -157,6 +157,23 @@ func runC32(c *Ctx) []Obligation {
 			Assume: []Lit{F(`^assert<x/pocketcore/types\.RelayProof>\(.*\)#1$`), F(`^assert<x/pocketcore/types\.ChallengeProofInvalidData>\(phi:l\)#1$`)},
 			Target: CallTo(`AwardCoinsForRelays\(|BurnCoinsForChallenges\(`), Why: "unknown leaf types pay nothing"},
 	}
+	// expiry: swept at the start of every block, over every claim, deleting each claim whose
+	// expiration height has been reached (ValidateProof never looks at ExpirationHeight itself:
+	// an expired claim is unpayable only because the sweep has already removed it)
+	fnExpire := "(x/pocketcore/keeper.Keeper).DeleteExpiredClaims"
+	rows = append(rows,
+		Row{Prop: P, ID: "expiry.runs-every-block", Fn: "(x/pocketcore.AppModule).BeginBlock",
+			Barrier: []string{`^` + kK + `DeleteExpiredClaims\(am\.keeper, ctx\)`}, Target: TargetAnyReturn(),
+			Why: "BeginBlock reaches its end only through the expiry sweep, on every block"},
+		Row{Prop: P, ID: "expiry.sweeps-all-claims", Fn: fnExpire,
+			Barrier: []string{`^types\.KVStorePrefixIterator\(invoke types\.Ctx\.KVStore\(ctx, k\.storeKey\), x/pocketcore/types\.ClaimKey\)`}, Target: TargetAnyReturn(),
+			Why: "the sweep returns only after iterating the whole claim prefix: no early exit skips it"},
+		Row{Prop: P, ID: "expiry.deletes-when-due", Fn: fnExpire,
+			Assume:  []Lit{F(`^lt\(invoke types\.Ctx\.BlockHeight\(ctx\), var:msg\.ExpirationHeight\)$`)},
+			Barrier: []string{`^invoke types\.KVStore\.Delete\(invoke types\.Ctx\.KVStore\(ctx, k\.storeKey\), invoke types\.Iterator\.Key\(`},
+			Target:  CallTo(`^invoke types\.Iterator\.Next\(`), TargetMustExist: true,
+			Why: "a claim whose expiration height is not above the block height is deleted before the sweep moves on"},
+	)
 	out := c.Rows(rows)
 	out = append(out,
 		c.whoMayCall(P, "award.callers", "(x/pocketcore/keeper.Keeper).AwardCoinsForRelays", []string{kK + `ExecuteProof`}, "relay rewards are paid only by ExecuteProof"),
